@@ -120,7 +120,7 @@ CHECKS = {
         text="_random_number_to_data / generate_data_from_prob_dist: for every probability vector the validator accepts (exact zeros, sum deficit up to 9e-14) and every draw in [0,1) the "
              "outcome is in range, has non-zero probability and is the inverse-CDF image (n<=4 outcomes, N<=3 draws; thorough n<=6, N<=4). calc_empi_dist_sequence on symbolic integer data "
              "(L<=4, thorough 5; K<=2 prefixes): counts/num_sum, non-negative, sums to one, raises only under the documented conditions. Multinomial route with rvs replaced by its contract; every returned (n, distribution) of Experiment / tomography entry points carries the requested sample size for its (step, schedule) position (unequal sizes). "
-             "All three sampling entry points of all four tomography classes draw with the requested size from the distribution of their schedule (recording multinomial stub). Seed data-flow: with an integer seed the output depends on that seed's stream only, equal seeds consume equal draws, None uses the global stream, a shared generator advances; CrossHair on the real to_stream with a SYMBOLIC integer seed in [0,2^32): always a new generator over MT19937(seed). "
+             "All three sampling entry points of all four tomography classes draw with the requested size from the distribution of their schedule (recording multinomial stub). An Experiment used again after one of its objects was replaced (item assignment on the accessor's list, or the setter) draws from Tr(E_x rho) of the CURRENT objects; changing a copy does not affect the original. Seed data-flow: with an integer seed the output depends on that seed's stream only, equal seeds consume equal draws, None uses the global stream, a shared generator advances; CrossHair on the real to_stream with a SYMBOLIC integer seed in [0,2^32): always a new generator over MT19937(seed). "
              "NOT claimed: anything about MT19937/PCG bit streams or scipy's multinomial sampler (C code).",
         design_ref="DESIGN.md 3/C14"),
     "C18": dict(
@@ -146,8 +146,9 @@ CHECKS = {
         text="PARTIAL coverage of C15, the part a solver can reach. Decided: (1) generate_empi_dists_and_calc_estimate / the repetition loop behind execute_simulation for 1-qubit QST/POVMT "
              "(thorough also QPT/QMPT), n_rep 3 (thorough 2 and 4), seed given as integer / generator / None: the repetitions consume pairwise disjoint draws (are not copies), all draws "
              "come from the designated stream, an explicit seed leaves the global stream untouched, the same integer seed reproduces the same draws and the same estimates, and re-estimation "
-             "from the stored empirical distributions reproduces the stored estimates (linear estimator). (2) DepolarizedQOperationGenerationSetting for all four object types with SYMBOLIC "
-             "rate p in [0,1] and symbolic base object (1 qubit, thorough qutrit): result == (1-p) ideal + p maximally-mixed part, and the depolarising channel passes the library's physicality "
+             "from the stored empirical distributions reproduces the stored estimates (linear estimator); execute_simulation stores a setting equal to the given one field by field (all fields "
+             "given different values) and the tomography rebuilt from the stored setting has the same tolerances, coefficient matrix and constant vector and reproduces the stored estimates. (2) DepolarizedQOperationGenerationSetting for all four object types with SYMBOLIC "
+             "rate p in [0,1] and symbolic base object (1 qubit, two-qubit state and POVM; thorough also qutrit and a two-qubit gate): result == (1-p) ideal + p maximally-mixed part, and the depolarising channel passes the library's physicality "
              "test for every p. NOT decided (outside): invariance under joblib worker counts and process scheduling, SeedSequence.spawn, pickled results and re-estimation from files, "
              "random effective-Lindbladian generation, loss-minimisation estimators inside simulations, the built-in physicality-violation check.",
         design_ref="DESIGN.md 3/C15, 7.7"),
@@ -161,7 +162,7 @@ CHECKS = {
     "C20": dict(
         technique="path exploration of the real validation code with symbolic integer indices (unbounded) and forked kind selectors + z3 (QF_LIA) verdict 'accepted <=> 15-line spec' per path",
         category="other",
-        text="Experiment constructor, the five setters, malformed items, the four tomography classes' custom schedules (length <=4 quick, <=5 thorough) and 'all' expansion, two-call histories (list setter then schedules setter), execution of schedules with several intermediate operations in order: for every "
+        text="Experiment constructor, the five setters, malformed items, the four tomography classes' custom schedules (length <=4 quick, <=5 thorough) and 'all' expansion, two-call histories (list setter then schedules setter), execution of schedules with several intermediate operations in order, Experiment.copy() (accepted, same objects in all four lists, own list objects): for every "
              "kind sequence and list-size configuration the solver decides accepted <=> well-formed for ALL integer index values, and that rejection raises only the two schedule errors; "
              "accepted schedules are executed on a symbolic state. Bounded by schedule length and list sizes 0..2.",
         design_ref="DESIGN.md 3/C20"),
